@@ -335,7 +335,73 @@ func c12EncExec(c c12EncCase) (keys []string, detail, class string) {
 	return nil, detail, "enc/within/equal"
 }
 
+// ---- sequences: a message after a stream that failed part-way ----
+
+// c12Seq: entry point e is first given a DEFLATE stream that yields some output and then ends
+// without a final block (rejected), then an ordinary compressed message. The second outcome must
+// be what the same message gets in a process that has seen nothing else (package-level state
+// such as a recycled buffer is shared by all instances, so a fresh instance cannot vouch).
+type c12Seq struct {
+	Seq   bool `json:"sequence"`
+	Entry int  `json:"entry"`
+	Level int  `json:"level"`
+	Stale int  `json:"stale"` // which unfinished stream came first
+}
+
+var c12Stale = []string{"<a>stale</a>", "<!-- stale -->", "   ", "<samlp:Response xmlns:samlp=\"urn:oasis:names:tc:SAML:2.0:protocol\" ID=\"_stale\" Version=\"2.0\"/>"}
+
+func c12SeqInputs(c c12Seq) (bad, good string) {
+	var buf bytes.Buffer
+	w, _ := flate.NewWriter(&buf, flate.BestSpeed)
+	w.Write([]byte(c12Stale[c.Stale]))
+	w.Flush() // no Close: the stream has no final block
+	bad = base64.StdEncoding.EncodeToString(buf.Bytes())
+	d := c12Doc(c.Entry, 9000)
+	good = base64.StdEncoding.EncodeToString(idp.Deflate(d, c12Levels[c.Level]))
+	return bad, good
+}
+
+var (
+	c12RefMu sync.Mutex
+	c12Refs  = map[string]c12Out{}
+)
+
+// c12SeqRef is the outcome of the good message alone; c12Run takes all of them before anything
+// else has been decoded in the process, a replay before its own sequence.
+func c12SeqRef(c c12Seq) c12Out {
+	k := fmt.Sprintf("%d/%d", c.Entry, c.Level)
+	c12RefMu.Lock()
+	defer c12RefMu.Unlock()
+	if o, ok := c12Refs[k]; ok {
+		return o
+	}
+	_, good := c12SeqInputs(c)
+	o := c12Call(c.Entry, 0, good)
+	c12Refs[k] = o
+	return o
+}
+
+func c12SeqExec(c c12Seq) (keys []string, detail, class string) {
+	ref := c12SeqRef(c)
+	bad, good := c12SeqInputs(c)
+	o1 := c12Call(c.Entry, 0, bad)
+	o2 := c12Call(c.Entry, 0, good)
+	detail = fmt.Sprintf("case=%+v | unfinished stream: accepted=%v err=%q | message after it: accepted=%v err=%q data=%q | the same message alone: accepted=%v err=%q data=%q", c, o1.Accepted, o1.Err.Text, o2.Accepted, o2.Err.Text, o2.Data, ref.Accepted, ref.Err.Text, ref.Data)
+	if o1.Panic != "" || o2.Panic != "" {
+		return []string{"C12/" + c12Entries[c.Entry] + "/panic"}, detail, "panic"
+	}
+	if o2 != ref {
+		return []string{"C12/" + c12Entries[c.Entry] + "/compressed-message-after-a-failed-stream-differs"}, detail, "sequence/DIFFERS"
+	}
+	return nil, detail, "sequence/same"
+}
+
 func c12Replay(raw json.RawMessage) ([]string, string) {
+	var sq c12Seq
+	if json.Unmarshal(raw, &sq) == nil && sq.Seq {
+		k, d, _ := c12SeqExec(sq)
+		return k, d
+	}
 	var ec c12EncCase
 	if json.Unmarshal(raw, &ec) == nil && ec.EncSize > 0 {
 		k, d, _ := c12EncExec(ec)
@@ -354,8 +420,36 @@ func c12Run(r *mc.Run) {
 	if r.Thorough() {
 		bomb = 2 << 30
 	}
-	r.Rule = "configured limit(6: unset, 1, 64, 2048, 65536, 5 MiB) x inflated size around the effective limit (L-1, L, L+1, 2L, 64L) x flate level(5: stored, 1, 6, 9, Huffman-only) x 6 entry points (the unverified decoders always at 5 MiB), documents = a genuine signed message (or the smallest well-formed document) padded with whitespace to the exact size; plus a streamed expansion bomb (256 MiB quick / 2 GiB thorough, ~1000:1) per limit x entry point x level with TotalAlloc measured around the call (sequential phase). Oracle: size > limit => error, and the same outcome (acceptance, error type and text) when everything after limit+1 bytes of the expansion is replaced by garbage (no wording is assumed); size <= limit => identical outcome, data and error to the same bytes presented uncompressed; the same for a DEFLATE-compressed plaintext inside an EncryptedAssertion (3 limits x 4 sizes x 2 levels). non-trivial = the input reached the inflater (raw parse failed); distinct = distinct case"
+	r.Rule = "configured limit(6: unset, 1, 64, 2048, 65536, 5 MiB) x inflated size around the effective limit (L-1, L, L+1, 2L, 64L) x flate level(5: stored, 1, 6, 9, Huffman-only) x 6 entry points (the unverified decoders always at 5 MiB), documents = a genuine signed message (or the smallest well-formed document) padded with whitespace to the exact size; plus a streamed expansion bomb (256 MiB quick / 2 GiB thorough, ~1000:1) per limit x entry point x level with TotalAlloc measured around the call (sequential phase). Oracle: size > limit => error, and the same outcome (acceptance, error type and text) when everything after limit+1 bytes of the expansion is replaced by garbage (no wording is assumed); size <= limit => identical outcome, data and error to the same bytes presented uncompressed; the same for a DEFLATE-compressed plaintext inside an EncryptedAssertion (3 limits x 4 sizes x 2 levels); plus sequences per entry point x level x 4 unfinished streams: a DEFLATE stream that yields output and then ends without a final block, followed by an ordinary compressed message, whose outcome must equal the outcome of that message alone taken at process start. non-trivial = the input reached the inflater (raw parse failed); distinct = distinct case"
 	r.Assume("runtime.MemStats.TotalAlloc deltas measured in a sequential phase with no other goroutine allocating")
+	// sequences: the references first, while the process has decoded nothing else
+	var seqs []c12Seq
+	for e := range c12Entries {
+		for _, li := range []int{1, 2} {
+			for st := range c12Stale {
+				seqs = append(seqs, c12Seq{Seq: true, Entry: e, Level: li, Stale: st})
+			}
+		}
+	}
+	for _, sq := range seqs {
+		c12SeqRef(sq)
+	}
+	defer func() {
+		for i, sq := range seqs {
+			keys, detail, class := c12SeqExec(sq)
+			r.Eval(2)
+			r.State(1)
+			r.Transition(2)
+			r.Bucket(class)
+			r.Nontrivial(fmt.Sprintf("%+v", sq))
+			if i%17 == 0 {
+				r.Sample(map[string]interface{}{"case": sq, "observed": detail[:min(len(detail), 500)]})
+			}
+			for _, k := range keys {
+				r.Violation(k, detail[:min(len(detail), 1500)], sq)
+			}
+		}
+	}()
 	var cases []c12Case
 	for _, L := range c12Limits {
 		for e := range c12Entries {
